@@ -7,7 +7,7 @@ from harness import tlc
 from harness.common import Check
 pid, tier = sys.argv[1], (sys.argv[2] if len(sys.argv) > 2 else "quick")
 mod = importlib.import_module(f"harness.checks.{pid}")
-chk = Check(pid, tier, 0); chk.write_evidence = False
+chk = Check(pid, tier, int(os.environ.get("VERIF_SEED", "0"))); chk.write_evidence = False
 os.makedirs(tlc.CACHE, exist_ok=True)
 mod.run(chk)
 c = collections.Counter(); ex = {}
